@@ -16,10 +16,8 @@ CONSTANTS
   PrsCat <- NoSets
   IdxCat <- NoSets
   MaxMask = 1
+  Part = 0
 INVARIANT FixedPoint
 INVARIANT ReportIsDetectMinusMask
 INVARIANT MaskGrows
-INVARIANT TolMonotone
-INVARIANT WindowMonotone
-INVARIANT WholeHistory
 INVARIANT Emit
